@@ -33,8 +33,12 @@ func linConst(k int64) Lin {
 	return l
 }
 
+// linTermOf remembers the term behind every variable of a linear form (for "held quantity" tests).
+var linTermOf = map[string]*Term{}
+
 func linVar(t *Term) Lin {
 	l := newLin()
+	linTermOf[t.Key()] = t
 	l.coef[t.Key()] = big.NewRat(1, 1)
 	l.names[t.Key()] = t.String()
 	return l
@@ -333,11 +337,78 @@ func (c *Ctx) childTerm(t *Term) *Ctx {
 	return ch
 }
 
-// LinFact is the query a − b ≤ k (all integer terms).
+// LinFact is the query a − b ≤ k (all integer terms). With Held set the query is instead
+// "a ≤ some linear expression over variables accepted by Held" (B and K are ignored).
 type LinFact struct {
 	A, B *Term
 	K    int64
 	Text string
+	Held func(*Term) bool
+}
+
+// boundedAbove: does cs entail s ≤ E for a linear E over held variables? (Fourier–Motzkin
+// projection onto {z} ∪ held with z = s; some surviving constraint must bound z from above.)
+func boundedAbove(cs []Constraint, s Lin, held func(*Term) bool) bool {
+	const zk = "\x00z"
+	z := newLin()
+	z.coef[zk] = big.NewRat(1, 1)
+	z.names[zk] = "z"
+	cur := make([]Lin, 0, len(cs)+2)
+	for _, c := range cs {
+		cur = append(cur, c.lin)
+	}
+	cur = append(cur, z.add(s, -1), s.add(z, -1))
+	keep := func(k string) bool {
+		if k == zk {
+			return true
+		}
+		t := linTermOf[k]
+		return t != nil && held(t)
+	}
+	for {
+		var v string
+		for _, l := range cur {
+			for k := range l.coef {
+				if !keep(k) && (v == "" || k < v) {
+					v = k
+				}
+			}
+		}
+		if v == "" {
+			break
+		}
+		var pos, neg, rest []Lin
+		for _, l := range cur {
+			c := l.coef[v]
+			switch {
+			case c == nil || c.Sign() == 0:
+				rest = append(rest, l)
+			case c.Sign() > 0:
+				pos = append(pos, l)
+			default:
+				neg = append(neg, l)
+			}
+		}
+		for _, p := range pos {
+			for _, n := range neg {
+				a := p.coef[v]
+				b := new(big.Rat).Neg(n.coef[v])
+				comb := p.scale(b).add(n.scale(a), 1)
+				delete(comb.coef, v)
+				rest = append(rest, comb)
+			}
+		}
+		cur = rest
+		if len(cur) > 4000 {
+			return false
+		}
+	}
+	for _, l := range cur {
+		if c := l.coef[zk]; c != nil && c.Sign() > 0 {
+			return true
+		}
+	}
+	return false
 }
 
 // EntailsLinear decides pc ⇒ (every fact). On failure returns a description of the failing case.
@@ -394,6 +465,7 @@ func (c *Ctx) entailsLinearRec(env *linEnv, pc *Formula, facts []LinFact, depth 
 		a, b Lin
 		k    int64
 		text string
+		held func(*Term) bool
 	}
 	var lfacts []lfact
 	for _, f := range facts {
@@ -403,13 +475,16 @@ func (c *Ctx) entailsLinearRec(env *linEnv, pc *Formula, facts []LinFact, depth 
 		} else if err != nil {
 			return false, "", err
 		}
-		b, err := env.linTerm(f.B)
-		if nc, ok := err.(*needChoice); ok {
-			return split(nc)
-		} else if err != nil {
-			return false, "", err
+		b := newLin()
+		if f.Held == nil {
+			b, err = env.linTerm(f.B)
+			if nc, ok := err.(*needChoice); ok {
+				return split(nc)
+			} else if err != nil {
+				return false, "", err
+			}
 		}
-		lfacts = append(lfacts, lfact{a, b, f.K, f.Text})
+		lfacts = append(lfacts, lfact{a, b, f.K, f.Text, f.Held})
 	}
 	// background: len(x) ≥ 0
 	var background []Constraint
@@ -480,7 +555,9 @@ func (c *Ctx) entailsLinearRec(env *linEnv, pc *Formula, facts []LinFact, depth 
 	}
 	for _, f := range facts {
 		indWalk(f.A)
-		indWalk(f.B)
+		if f.B != nil {
+			indWalk(f.B)
+		}
 	}
 	failure := ""
 	// cone of influence: only comparison atoms sharing (transitively) a variable with the facts
@@ -565,6 +642,13 @@ func (c *Ctx) entailsLinearRec(env *linEnv, pc *Formula, facts []LinFact, depth 
 				continue // this case is arithmetically impossible
 			}
 			for _, lf := range lfacts {
+				if lf.held != nil {
+					if !boundedAbove(cc, lf.a, lf.held) {
+						failure = fmt.Sprintf("%s is not entailed when %s (case choices %v): no upper bound on %s over held quantities", lf.text, renderAssignment(full, asg), env.choices, lf.a)
+						return false
+					}
+					continue
+				}
 				// negation of a − b ≤ k is b − a ≤ −k − 1
 				neg := leq(lf.b, lf.a, -lf.k-1, "")
 				if feasible(append(append([]Constraint{}, cc...), neg)) {
